@@ -10,6 +10,6 @@ ABPts_t == ABPts(T_t, Ep_t, Rh_t) \cup ABPtsB({R(250, 1), R(5963, 20), R(650, 1)
 
 ProdPts_t == ProdPts({"lap", "eap", "dap"}, {R(0, 1), R(1, 1000), R(1, 100), R(1, 10), R(1, 4)},
                      {R(5463, 20), R(5963, 20), R(350, 1)}, {R(392, 5), R(60, 1)},
-                     {R(997, 1), R(958, 1)}, {R(0, 1), R(1, 10)})
+                     {R(997, 1), R(958, 1)}, {R(0, 1), R(1, 10), R(-1, 5)}, {R(-3, 10), R(-1, 5), R(0, 1), R(1, 10)})
 DHPts_t == LawPts_t \cup ABPts_t \cup ProdPts_t
 =============================================================================
